@@ -301,6 +301,8 @@ class Normaliser:
             for n in ast.walk(fdh):
                 if (isinstance(n, ast.Name) and n.id == name) or (isinstance(n, ast.Attribute) and n.attr in (name, mangled)):
                     refs -= 1
+            if not name.startswith("_") and name in getattr(self, "external_refs", set()):
+                continue  # a public helper other modules name
             if refs <= 0:
                 holder = self.tree.body if cls is None else next(c.body for c in self.tree.body if isinstance(c, ast.ClassDef) and c.name == cls)
                 if fdh in holder and len(holder) > 1:
@@ -813,8 +815,9 @@ class Normaliser:
         return out
 
 
-def normalise_module(tree: ast.Module, modname: str, known_funcs: Set[str], known_names: Set[str]) -> Tuple[ast.Module, List[str]]:
+def normalise_module(tree: ast.Module, modname: str, known_funcs: Set[str], known_names: Set[str], external_refs: Optional[Set[str]] = None) -> Tuple[ast.Module, List[str]]:
     n = Normaliser(tree, modname, known_funcs, known_names)
+    n.external_refs = external_refs or set()
     try:
         t = n.run()
     except RecursionError:
